@@ -238,7 +238,10 @@ pub fn guard<T>(f: impl FnOnce() -> T) -> Guard<T> {
                 .with(|p| p.borrow_mut().take())
                 .unwrap_or(("?".into(), "?".into()));
             let text = format!("panic at {}: {}", loc, truncate(&msg, 200));
-            if loc.contains("/verif/") || loc.contains("harness/src") {
+            // harness code is compiled from its own crate root, so its panic locations are relative ("src/sim/step.rs");
+            // library code is a path dependency outside that root (absolute path), its dependencies live in the cargo
+            // registry and std under /rustc/
+            if loc.starts_with("src/") || loc.contains("/verif/") || loc.contains("harness/src") || loc.contains("harness/fuzz") {
                 Guard::HarnessPanic(text)
             } else {
                 Guard::LibPanic(text)
